@@ -1089,7 +1089,11 @@ class AnsiString:
                     # Because the settings work based on references instead of values, the settings not only
                     # need to be removed here but changed where they are removed in the added string.
                     find_settings = settings.add
-                    replace_settings = self._fmts[key].rem[:len(settings.add)]
+                    # Pair them up in the order they take effect (the removal list may be ordered differently)
+                    replace_settings = [
+                        s for s in self.ansi_settings_at(shift - 1)
+                        if __class__._find_setting_reference(s, self._fmts[key].rem[:len(settings.add)]) >= 0
+                    ]
                     self._fmts[key].rem = self._fmts[key].rem[len(settings.add):]
                     settings.add = []
                     if not self._fmts[key] and not settings:
